@@ -1,5 +1,6 @@
 pub mod crash;
 pub mod fault;
+pub mod fixture;
 pub mod grammar;
 pub mod hist;
 pub mod sched;
